@@ -482,3 +482,21 @@ func resolveRenames(pkgs map[string]*packages.Package) {
 		}
 	}
 }
+
+var listedFuncs map[string]bool
+
+// listedFunction: the reference inventory lists a function of that name (pkgrel.Name) - i.e. it is not new
+func listedFunction(rel, fname string) bool {
+	if listedFuncs == nil {
+		listedFuncs = map[string]bool{}
+		if b, err := os.ReadFile(filepath.Join(tablesDir, "functions.json")); err == nil {
+			var inv inventoryFile
+			if json.Unmarshal(b, &inv) == nil {
+				for _, r := range inv.Functions {
+					listedFuncs[r.Rel+"."+r.Name] = true
+				}
+			}
+		}
+	}
+	return listedFuncs[fname]
+}
